@@ -75,6 +75,16 @@ def carries(e, S, mode="value"):
             return False  # indexing changes the shape
         if isinstance(e, ast.Call) and _cname(e) in SHAPE_CHANGING:
             return False
+    if isinstance(e, ast.Call) and _cname(e) == "where" and len(e.args) == 3 and mode == "value":
+        # NaN logic: an ordering/equality comparison is False at a NaN, so
+        # the NaN positions take the else-operand; `!=`, isnan and `~` flip
+        side = _nan_side(e.args[0])
+        a, b = carries(e.args[1], S, mode), carries(e.args[2], S, mode)
+        if side == "else":
+            return b
+        if side == "then":
+            return a
+        return a and b
     if isinstance(e, ast.Call):
         n = _cname(e)
         if n in SHAPE_ONLY or n in ERASING:
@@ -96,6 +106,19 @@ def carries(e, S, mode="value"):
     if isinstance(e, ast.Attribute) and e.attr == "T":
         return mode == "value" and carries(e.value, S, mode)
     return False
+
+
+def _nan_side(c):
+    if isinstance(c, ast.UnaryOp) and isinstance(c.op, (ast.Invert, ast.Not)):
+        s_ = _nan_side(c.operand)
+        return {"else": "then", "then": "else"}.get(s_)
+    if isinstance(c, ast.Compare) and len(c.ops) == 1:
+        return "then" if isinstance(c.ops[0], ast.NotEq) else "else"
+    if isinstance(c, ast.Call) and _cname(c) == "isnan":
+        return "then"
+    if isinstance(c, ast.Call) and _cname(c) in ("isfinite",):
+        return "else"
+    return None
 
 
 def _is_module(e):
